@@ -48,6 +48,18 @@ def answer (c : Td.Cfg) (s : Td.St) (ws : List String) : Td.Cfg × Td.St × Stri
       -- an applied write is notified to the subscribers of the server feature
       (c, s', if a == "applied" then "applied " ++ showTargets (Reg.notifyTargets s.reg (parseEnt se) sf) else a)
     | _ => (c, s, "bad-op")
+  | ["subspass", p, e] => match p.toNat? with
+    | some p => (c, { s with reg := Reg.subsPass s.reg p (parseEnt e) }, "done")
+    | none => (c, s, "bad-op")
+  | ["bindspass", p, e] => match p.toNat? with
+    | some p => (c, { s with reg := Reg.bindsPass c.reg s.reg p (parseEnt e) }, "done")
+    | none => (c, s, "bad-op")
+  | ["csub", p, e] => match p.toNat? with
+    | some p => let (s', a) := Td.clientAdd s false p (parseEnt e) 4; (c, s', a)
+    | none => (c, s, "bad-op")
+  | ["cbind", p, e] => match p.toNat? with
+    | some p => let (s', a) := Td.clientAdd s true p (parseEnt e) 4; (c, s', a)
+    | none => (c, s, "bad-op")
   | [v, p, w] =>
     if v == "approve" || v == "deny" then
       match nats [p, w] with
@@ -69,16 +81,11 @@ def answer (c : Td.Cfg) (s : Td.St) (ws : List String) : Td.Cfg × Td.St × Stri
       | none => (c, s, "bad-op")
     else (c, s, "bad-op")
   | ["fire"] => (c, Td.fire s, showFired s)
-  | ["csub", p] => match p.toNat? with
-    | some p => let (s', a) := Td.clientAdd s false p [1] 4; (c, s', a)
-    | none => (c, s, "bad-op")
-  | ["cbind", p] => match p.toNat? with
-    | some p => let (s', a) := Td.clientAdd s true p [1] 4; (c, s', a)
-    | none => (c, s, "bad-op")
   | ["chas", p] => match p.toNat? with
+    -- the local client's bookkeeping for the servers [1]/4 and [1,1]/4 of peer p, and node management's subscription
     | some p =>
-      let has (l : List Td.Book) := if l.any (fun x => x.peer = p && x.ent = [1] && x.feat = 4) then "1" else "0"
-      (c, s, s!"{has s.csubs} {has s.cbinds} {if s.alive.contains p then "1" else "0"}")
+      let has (l : List Td.Book) (e : List Nat) := if l.any (fun x => x.peer = p && x.ent = e && x.feat = 4) then "1" else "0"
+      (c, s, s!"{has s.csubs [1]} {has s.cbinds [1]} {has s.csubs [1, 1]} {has s.cbinds [1, 1]} {if s.alive.contains p then "1" else "0"}")
     | none => (c, s, "bad-op")
   | ["drop", p] => match p.toNat? with
     | some p => (c, Td.drop c s p, "done")
@@ -106,13 +113,21 @@ def answer (c : Td.Cfg) (s : Td.St) (ws : List String) : Td.Cfg × Td.St × Stri
     | none => (c, s, "bad-op")
   | _ => (c, s, "bad-op")
 
-partial def loop (h out : IO.FS.Stream) (c : Td.Cfg) (s : Td.St) : IO Unit := do
+/-- `save` / `restore`: one slot for the state, so that the harness can ask for both orders of two operations -/
+partial def loop (h out : IO.FS.Stream) (c : Td.Cfg) (s saved : Td.St) : IO Unit := do
   let line ← h.getLine
   if line.isEmpty then out.flush; return ()
-  let ws := (line.trimAscii.toString.splitOn " ").filter (· ≠ "")
-  let (c', s', ans) := answer c s ws
-  out.putStrLn ans
-  out.flush
-  loop h out c' s'
+  let ws := stripDecor ((line.trimAscii.toString.splitOn " ").filter (· ≠ ""))
+  if ws == ["save"] then
+    out.putStrLn "saved"; out.flush
+    loop h out c s s
+  else if ws == ["restore"] then
+    out.putStrLn "restored"; out.flush
+    loop h out c saved saved
+  else
+    let (c', s', ans) := answer c s ws
+    out.putStrLn ans
+    out.flush
+    loop h out c' s' saved
 
-def main : IO Unit := do loop (← IO.getStdin) (← IO.getStdout) {} (tdInit 2)
+def main : IO Unit := do loop (← IO.getStdin) (← IO.getStdout) {} (tdInit 2) (tdInit 2)
